@@ -26,6 +26,15 @@ def scenarios(thorough):
         out.append(cc.mk([P(1)], room=10, extra_client=[["read", 5], [how]], drains=False,
                          apps={1: {"chunks": [40, 40, 40], "cl": "none"}}, adj={"outbuf_high_watermark": 30},
                          name="producer parked, client %s" % how))
+        out.append(cc.mk([P(1)], lookahead=1, room=10, extra_client=[["read", 5], [how]], drains=False,
+                         apps={1: {"chunks": [40, 40, 40], "cl": "none"}}, adj={"outbuf_high_watermark": 30},
+                         name="producer parked, lookahead=1 (the I/O thread sees the disconnect in recv), client %s" % how))
+    # an output buffer that spills to a file while it is partly sent
+    # (the first partial send turns the byte string into a BytesIO buffer with a read position; growing past outbuf_overflow converts that to a file)
+    for ov, sizes in ((250, [40] * 8), (300, [60, 10, 60, 60, 60, 60]), (1, [20, 20])):
+        out.append(cc.mk([P(1)], room=30, extra_client=[["readall_after_block", 4 if ov > 1 else 1]],
+                         apps={1: {"chunks": sizes, "cl": "none"}}, adj={"outbuf_high_watermark": 1000, "outbuf_overflow": ov},
+                         name="outbuf_overflow=%d sizes=%s, spill while partly sent" % (ov, sizes)))
     out.append(cc.mk([P(1), P(2)], lookahead=1, workers=2, room=20, extra_client=[["read", 40], ["readall"]],
                      apps={1: {"chunks": [40, 40]}, 2: {"chunks": [40]}}, adj={"outbuf_high_watermark": 30}, name="two pipelined producers hwm=30"))
     out.append(cc.mk([P(1)], room=0, extra_client=[["readall_after_block", 1]], apps={1: {"chunks": [200, 200], "write": True, "cl": "none"}},
